@@ -249,7 +249,9 @@ impl Property for C08 {
         }
         let env = raw.env(&mut raw_rng);
         let program = Program { lines };
-        let fc = gen::fault_cfg(&mut cfg_rng);
+        let mut fc = gen::fault_cfg(&mut cfg_rng);
+        // One crash in about forty restarts into a separate OS process (costly: spawn + boot).
+        fc.os_process_rate = 25;
         let mut schedule = gen::gen_schedule(
             &fc,
             &mut fault_rng,
@@ -431,6 +433,9 @@ impl Property for C08 {
         ev.add("comparisons", comparisons);
         ev.add("comparisons_after_restore", after_restore);
         add_fault_counters(&mut ev, &trace.counts);
+        if trace.harness_error.is_some() {
+            ev.harness_error = trace.harness_error.clone();
+        }
         ev.add("simulated_clock_minutes_at_boot", case.clock.minutes as u64);
         ev.nontrivial = after_restore > 0;
         ev.log = log;
